@@ -325,7 +325,7 @@ func (st *c08State) aggFormula(r *Run, tree *c08Node) {
 			}
 		}
 		op = "agg " + tree.Op + " " + strings.Join(ks, " ") + " | " + tb.String()
-		ln = r.Op(op, raw+" S="+c08SpecStr(c08AggSpec(tree.Op, func() []c08Val { _, s := st.aggCells(tree); return s }())))
+		ln = r.Op(op, raw+c08Out(raw, res, errs, false)+" S="+c08SpecStr(c08AggSpec(tree.Op, func() []c08Val { _, s := st.aggCells(tree); return s }())))
 		r.Stat("stream:aggregate plain (transcript + oracle)")
 	} else {
 		// an aggregate call inside an operator expression: the token machine with its in-function
@@ -356,7 +356,7 @@ func (st *c08State) aggFormula(r *Run, tree *c08Node) {
 		}
 		toks, _ := c08Tokens(text, spell)
 		op = "ev " + toks + " | " + tb.String()
-		ln = r.Op(op, raw+" render=ok tree=ok S="+c08SpecStr(want))
+		ln = r.Op(op, raw+c08Out(raw, res, errs, false)+" render=ok tree=ok S="+c08SpecStr(want))
 		r.Stat("stream:aggregate nested in operators (transcript + oracle)")
 	}
 	r.Case("agg:"+text+"|"+strings.Join(st.lines, ";"), true)
